@@ -817,7 +817,7 @@ Definition rt_req_data_gen {R : Type} (ret : connp * Z -> R) (loop : bool -> con
     (data : option bytes) (len : nat) (c : connp) : R :=
   if c_in_status c =? c_HTP_STREAM_STOP then ret (c, c_HTP_STREAM_STOP)
   else if c_in_status c =? c_HTP_STREAM_ERROR then ret (c, c_HTP_STREAM_ERROR)
-  else if match c_in_tx c with None => negb (req_state_eqb (c_in_state c) REQ_IDLE) | Some _ => false end
+  else if match c_in_tx c with None => negb (req_state_eqb (c_in_state c) REQ_IDLE) && negb (c_in_status c =? c_HTP_STREAM_TUNNEL) | Some _ => false end
   then ret (c <| c_in_status := c_HTP_STREAM_ERROR |>, c_HTP_STREAM_ERROR)
   else if (len =? 0)%nat && negb (c_in_status c =? c_HTP_STREAM_CLOSED) then ret (c, c_HTP_STREAM_CLOSED)
   else
@@ -843,7 +843,7 @@ Proof.
   intros Hi Hd Hcl HL. unfold rt_req_data_gen.
   destruct (c_in_status c =? c_HTP_STREAM_STOP); [reflexivity|].
   destruct (c_in_status c =? c_HTP_STREAM_ERROR); [reflexivity|].
-  destruct (match c_in_tx c with None => negb (req_state_eqb (c_in_state c) REQ_IDLE) | Some _ => false end); [reflexivity|].
+  destruct (match c_in_tx c with None => negb (req_state_eqb (c_in_state c) REQ_IDLE) && negb (c_in_status c =? c_HTP_STREAM_TUNNEL) | Some _ => false end); [reflexivity|].
   destruct ((len =? 0)%nat && negb (c_in_status c =? c_HTP_STREAM_CLOSED)); [reflexivity|].
   cbv zeta.
   set (c1 := (rq_set_in _ c) <| c_in_chunk_count ::= S |> <| c_in_data_counter ::= Z.add (Z.of_nat len) |>).
